@@ -1,6 +1,6 @@
 (* C17 — back-reference serialization round-trips and never grows.
    Only statements here; every proof is `exact <lemma>` from Proofs/BackRefEmit.v,
-   Proofs/ReadCacheProofs.v, Proofs/SerBRProofs.v, Proofs/SerBRMain.v.
+   Proofs/ReadCacheProofs.v, Proofs/SerBRProofs.v, Proofs/SerBRMain.v, Proofs/SerBRTotal.v.
 
    Statement (properties.jsonl): for every tree, node_to_bytes_backrefs produces bytes that
    node_from_bytes_backrefs decodes to an identical tree; those bytes are canonical, no longer
@@ -28,14 +28,27 @@
        over a hashed container (the Rust iterates none: HashMap/HashSet are used through
        get/entry/contains/insert only, see Model/ReadCache.v) — decided by the byte-for-byte
        correspondence run and the two-run comparison on the implementation, not by a theorem.
-   NOT proved (level claimed: other): that the serializer never fails on a tree whose atoms are
-   shorter than 2^34 — no panic at the assert on the op stack, no underflow of a reference count
-   (u32 `-= 1`), no exhaustion of the breadth-first fuel:
-       C17_total (unproved) : forall t, atoms_small t = true -> wf_sexp t = true ->
-                               exists bs, node_to_bytes_backrefs H t = Ok bs.
-   The correspondence run and the implementation search never observed a failure. *)
+     - totality (C17_total, Proofs/SerBRTotal.v): on every tree whose atoms are shorter than
+       2^32 - 5 bytes (the u32 range of serialized_length_atom; [atoms_u32]) and which has at most
+       (2^32 - 2) / 6 = 715 827 882 nodes (the allocator holds at most 125 000 000), the serializer returns
+       bytes: the assert on the op stack never fires (the loop is followed by structural recursion
+       on the tree), no reference count underflows (the counts dominate the multiset of hashes the
+       read stack will decrement: [CInv]) or overflows u32 (their sum grows by at most 6 per node),
+       the breadth-first search never exhausts its fuel (every level but the last marks a parent
+       edge not marked before: bfs_total) and the loop fuel 2 n + 1 suffices. Tree-hash
+       injectivity is used only to know that a found path is short enough to be written as an atom.
+       Both size premises are necessary for the MODEL: a list of 2^32 equal atoms overflows a
+       count (Panic 13 in the model, `count += 1` on u32 in the Rust), an atom of 2^32 - 5 bytes
+       makes serialized_length_atom fail.
+     - C17_all: hence, for every such tree, with NO premise on the serializer's outcome: bytes are
+       returned, both decoders and the specification decode them to the tree consuming everything,
+       the length probe returns their length, they are canonical, not longer than the classic
+       serialization (when that is shorter than 2^32 - 5 bytes) and decoding and serializing again
+       gives the same bytes.
+   Level claimed: other, only because "identical from run to run" is decided by the correspondence
+   run and the two-run comparison, not by a theorem (the model is a function). *)
 From Clvm Require Import Model.BackRef Model.ReadCache Model.SerBR Model.Sha256
-  Proofs.BackRefEmit Proofs.SerBRProofs Proofs.SerBRMain.
+  Proofs.BackRefEmit Proofs.SerBRProofs Proofs.SerBRMain Proofs.SerBRTotal.
 Open Scope N_scope.
 
 (* ---- format level: any emitter *)
@@ -86,6 +99,31 @@ Theorem C17_idempotent : forall H,
   snd (node_from_stream_backrefs bs) = Ok (t', rest) -> node_to_bytes_backrefs H t' = Ok bs.
 Proof. exact ser_br_idempotent. Qed.
 
+(* ---- totality: the serializer never fails (sizes within the u32 ranges of the code) *)
+Theorem C17_total : forall H,
+  (forall t1 t2, treehash H t1 = treehash H t2 -> t1 = t2) ->
+  forall t, atoms_u32 t = true -> 6 * N.of_nat (n_nodes t) + 1 <= 4294967295 ->
+  exists bs, node_to_bytes_backrefs H t = Ok bs.
+Proof. exact ser_br_total. Qed.
+
+(* the search never exhausts its fuel, whatever the state of the lookup *)
+Theorem C17_find_path_total : forall (H : bytes -> bytes) s id len, exists r, find_path s id len = Ok r.
+Proof. exact find_path_total. Qed.
+
+(* ---- the whole statement for every tree in that range, no premise on the outcome *)
+Theorem C17_all : forall H,
+  (forall t1 t2, treehash H t1 = treehash H t2 -> t1 = t2) ->
+  forall t, wf_sexp t = true -> atoms_u32 t = true -> 6 * N.of_nat (n_nodes t) + 1 <= 4294967295 ->
+  exists bs, node_to_bytes_backrefs H t = Ok bs /\
+    de_br_spec bs = Ok (t, []) /\
+    snd (node_from_stream_backrefs bs) = Ok (t, []) /\
+    snd (node_from_stream_backrefs_old bs) = Ok (t, []) /\
+    serialized_length_from_bytes bs = Ok (blen bs) /\
+    is_canonical_serialization bs = BTrue /\
+    (forall e, ser t = Some e -> blen e < 4294967291 -> blen bs <= blen e) /\
+    (forall t' rest, snd (node_from_stream_backrefs bs) = Ok (t', rest) -> node_to_bytes_backrefs H t' = Ok bs).
+Proof. exact ser_br_all. Qed.
+
 (* the injectivity premise is satisfiable, and under such a hash the serializer does compress *)
 Theorem C17_premise_satisfiable :
   exists H, (forall t1 t2, treehash H t1 = treehash H t2 -> t1 = t2) /\
@@ -93,6 +131,13 @@ Theorem C17_premise_satisfiable :
     let l1 := Cons leaf leaf in let l2 := Cons l1 l1 in let l3 := Cons l2 l2 in
     node_to_bytes_backrefs H l3 = Ok [255; 255; 255; 133; 1; 2; 3; 4; 5; 254; 2; 254; 2; 254; 2].
 Proof. exists H_id. split; [exact H_id_treehash_inj|vm_compute; reflexivity]. Qed.
+
+(* the premises of C17_total / C17_all hold for the tree of C17_premise_satisfiable *)
+Example C17_total_witness :
+  let leaf := Atom [1; 2; 3; 4; 5] in
+  let l1 := Cons leaf leaf in let l2 := Cons l1 l1 in let l3 := Cons l2 l2 in
+  wf_sexp l3 = true /\ atoms_u32 l3 = true /\ 6 * N.of_nat (n_nodes l3) + 1 <= 4294967295.
+Proof. vm_compute. repeat split; discriminate. Qed.
 
 (* with the real hash: the pair of two equal 5-byte atoms *)
 Example C17_witness :
@@ -112,3 +157,7 @@ Print Assumptions C17_canonical.
 Print Assumptions C17_idempotent.
 Print Assumptions C17_premise_satisfiable.
 Print Assumptions C17_witness.
+Print Assumptions C17_total.
+Print Assumptions C17_find_path_total.
+Print Assumptions C17_all.
+Print Assumptions C17_total_witness.
